@@ -115,6 +115,7 @@ def transc_axioms(terms, uf, rounds=2):
             if 'u_exp' in uf:
                 new.append(z3.Implies(a > 0, exp(t) == a))
             new.append(z3.Implies(a > 0, (a <= 1) == (t <= 0)))
+            new.append(z3.Implies(a > 0, (a >= 1) == (t >= 0)))
             if z3.is_div(a):
                 new.append(z3.Implies(z3.And(a.arg(0) > 0, a.arg(1) > 0), t == ln(a.arg(0)) - ln(a.arg(1))))
             if z3.is_mul(a) and a.num_args() == 2:
@@ -174,23 +175,38 @@ def to_smt2(ctx, hyps, goal, extra_axioms=()):
     return s.to_smt2()
 
 
+Z3BIN = 'z3-new'
+
+
 def check_z3_text(text, timeout_ms, seeds=(0,)):
-    """z3 on one SMT-LIB text; on `unknown` the same query is retried with other random seeds
-    (non-linear arithmetic is sensitive to the search order), each with the full budget"""
+    """z3 5.1 (CLI, hard wall-clock limit) on one SMT-LIB text; on `unknown` the same query is retried with
+    other random seeds (non-linear arithmetic is sensitive to the search order)"""
     t = time.time()
-    r, reason = z3.unknown, ''
-    for seed in seeds:
-        s = z3.Solver()
-        s.set('timeout', int(timeout_ms))
-        if seed:
-            s.set('random_seed', seed)
-            s.set('smt.random_seed', seed)
-        s.from_string(text)
-        r = s.check()
-        if r != z3.unknown:
-            break
-        reason = s.reason_unknown()
-    return str(r), time.time() - t, reason
+    r, reason = 'unknown', ''
+    with tempfile.NamedTemporaryFile('w', suffix='.smt2', delete=False) as fh:
+        fh.write(text if '(check-sat)' in text else text + '\n(check-sat)\n')
+        path = fh.name
+    try:
+        for seed in seeds:
+            cmd = [Z3BIN, '-T:%d' % max(1, int(round(timeout_ms / 1000.0)))]
+            if seed:
+                cmd += ['smt.random_seed=%d' % seed, 'sat.random_seed=%d' % seed]
+            try:
+                p = subprocess.run(cmd + [path], capture_output=True, text=True, timeout=timeout_ms / 1000.0 + 5)
+                out = (p.stdout or '').strip().splitlines()
+                r = out[0].strip() if out else 'unknown'
+            except (subprocess.TimeoutExpired, OSError) as e:
+                r = 'timeout'
+            if r in ('sat', 'unsat'):
+                break
+            reason = r
+            r = 'unknown'
+    finally:
+        try:
+            os.unlink(path)
+        except OSError:
+            pass
+    return r, time.time() - t, reason
 
 
 def check_cvc5_text(text, timeout_s):
@@ -218,7 +234,7 @@ def check_cvc5_text(text, timeout_s):
 def _work(job):
     name, text, timeout_ms, use_cvc5 = job
     try:
-        r, dt, reason = check_z3_text(text, timeout_ms, seeds=(0, 7, 13))
+        r, dt, reason = check_z3_text(text, timeout_ms, seeds=(0, 7))
         backend = 'z3'
         if r != 'unsat' and use_cvc5:
             r2, dt2 = check_cvc5_text(text, max(5.0, timeout_ms / 1000.0))
